@@ -8,6 +8,9 @@
 //	(0) a fixed corpus, (a) encodings of generated valid values, (b) mutations of those
 //	(every truncation point, every byte +-1/0/0xff, trailing garbage), (c) raw random bytes,
 //	(d) exhaustively all short byte strings for the small codecs,
+//	(e) "edge" values: fixed values at and beyond what a length prefix can express (and values
+//	whose layout does not fit the decoding context) - Marshal must refuse them or emit an
+//	encoding that decodes back to the value,
 //
 // and prints one JSON line per input with the observation (ok + field dump + canonical
 // re-encoding | err | panic) plus the implementation-side monitor bits.
@@ -190,6 +193,18 @@ type Codec struct {
 	CorpusValid [][]byte
 	// Hint: plausible first bytes for the random leg.
 	Hint []byte
+	// Edges: fixed values at / beyond the limits of the encoding (kind "edge"), see Edge.
+	Edges []Edge
+}
+
+// Edge is one fixed value handed to the implementation's encoder. Make returns the dump of the
+// value and what Marshal made of it (err != nil: the encoder refused the value, which is always
+// acceptable for a value the wire format cannot express). InRange marks the values that the wire
+// format CAN express: the encoder must not refuse those.
+type Edge struct {
+	Name    string
+	InRange bool
+	Make    func() (Dump, []byte, error)
 }
 
 type Case struct {
@@ -207,6 +222,78 @@ type Case struct {
 	VDump    Dump   `json:"vdump"`               // kind=valid: dump of the generated value
 	Parent   string `json:"parent,omitempty"`    // kind=trunc/trail: the valid encoding it came from
 	Panic    string `json:"panic,omitempty"`
+	// kind=edge: name of the value, whether the wire format can express it, size of the encoding;
+	// res is "refused" when Marshal returned an error. In/Reenc are cut to edgeKeep bytes (Len and
+	// ReencSame keep what the monitors need).
+	Edge      string `json:"edge,omitempty"`
+	InRange   bool   `json:"in_range,omitempty"`
+	Len       int    `json:"len,omitempty"`
+	ReencSame *bool  `json:"reenc_same,omitempty"`
+	DumpSame  *bool  `json:"dump_same,omitempty"`
+	DumpLen   int    `json:"dump_len,omitempty"`
+	Err       string `json:"err,omitempty"`
+}
+
+// edgeKeep is how many bytes of an edge encoding are written to the output (they are tens of
+// kilobytes long and identified by their name, not by their bytes).
+const edgeKeep = 48
+
+func safeEdge(e *Edge) (d Dump, enc []byte, err error, pan string) {
+	defer func() {
+		if r := recover(); r != nil {
+			pan = fmt.Sprint(r)
+		}
+	}()
+	d, enc, err = e.Make()
+
+	return d, enc, err, ""
+}
+
+// observeEdge runs one edge value: Marshal, and if that produced bytes, Unmarshal + Marshal of
+// those bytes as for a generated valid value.
+func observeEdge(c *Codec, e *Edge) Case {
+	vd, enc, err, pan := safeEdge(e)
+	base := Case{Codec: c.Name, ID: c.ID, Ctx: c.Ctx, Kind: "edge", Edge: e.Name, InRange: e.InRange}
+	if base.Ctx == nil {
+		base.Ctx = []int{}
+	}
+	switch {
+	case pan != "":
+		base.Res, base.Panic = "panic", "Marshal: "+pan
+
+		return base
+	case err != nil:
+		base.Res, base.Err = "refused", err.Error()
+
+		return base
+	}
+	cs := observe(c, "edge", enc)
+	cs.Edge, cs.InRange, cs.Len = e.Name, e.InRange, len(enc)
+	if cs.Res == "ok" {
+		same := dumpEq(cs.Dump, vd)
+		cs.DumpSame, cs.DumpLen = &same, len(cs.Dump)
+		if cs.Reenc != nil {
+			rs := *cs.Reenc == cs.In
+			cs.ReencSame = &rs
+		}
+	}
+	cut := func(h string) string {
+		if len(h) > 2*edgeKeep {
+			return h[:2*edgeKeep]
+		}
+
+		return h
+	}
+	cs.In = cut(cs.In)
+	if cs.Reenc != nil {
+		r := cut(*cs.Reenc)
+		cs.Reenc = &r
+	}
+	if len(cs.Dump) > edgeKeep {
+		cs.Dump = cs.Dump[:edgeKeep]
+	}
+
+	return cs
 }
 
 func safeDecode(c *Codec, in []byte) (d *Decoded, err error, pan string) {
@@ -290,6 +377,10 @@ func Run(t *testing.T, codecs []*Codec) {
 		}
 		for _, in := range c.CorpusValid {
 			emitCorpus("cvalid", in)
+		}
+		// (e)
+		for i := range c.Edges {
+			out.Emit(observeEdge(c, &c.Edges[i]))
 		}
 		// (a)+(b)
 		for i := 0; c.Gen != nil && i < nValid; i++ {
@@ -398,7 +489,7 @@ func positions(r *Rand, n, limit int, thorough bool) []int {
 }
 
 // replay re-runs one recorded input (bin/check C18 --replay): VERIF_C18_REPLAY is the JSON
-// {"id":..,"ctx":[..],"in":hex,"kind":..,"parent":hex}; the parent (the valid encoding a
+// {"id":..,"ctx":[..],"in":hex,"kind":..,"parent":hex} or {"id":..,"ctx":[..],"edge":name}; the parent (the valid encoding a
 // truncation / trailing-garbage case was derived from) is observed first.
 func replay(out *Out, codecs []*Codec, spec string) {
 	var rp struct {
@@ -407,12 +498,22 @@ func replay(out *Out, codecs []*Codec, spec string) {
 		In     string `json:"in"`
 		Kind   string `json:"kind"`
 		Parent string `json:"parent"`
+		Edge   string `json:"edge"`
 	}
 	if err := json.Unmarshal([]byte(spec), &rp); err != nil {
 		panic(err)
 	}
 	for _, c := range codecs {
 		if c.ID != rp.ID || fmt.Sprint(c.Ctx) != fmt.Sprint(rp.Ctx) && !(len(c.Ctx) == 0 && len(rp.Ctx) == 0) {
+			continue
+		}
+		if rp.Edge != "" {
+			for i := range c.Edges {
+				if c.Edges[i].Name == rp.Edge {
+					out.Emit(observeEdge(c, &c.Edges[i]))
+				}
+			}
+
 			continue
 		}
 		if rp.Parent != "" {
